@@ -33,14 +33,14 @@ ASSUMPTIONS = [
 
 
 @st.composite
-def case(draw):
-    prof = draw(S.ranked_profile(1, 6, 8, tied=False, tie_rich=draw(st.integers(0, 2)) == 0))
+def case(draw, max_c=6, max_b=8):
+    prof = draw(S.ranked_profile(1, max_c, max_b, tied=False, tie_rich=draw(st.integers(0, 2)) == 0))
     n = len(prof["cands"])
     rule = draw(st.sampled_from(["STV", "STV", "STV", "IRV", "SequentialRCV", "STV_random"]))
     if rule == "STV_random":
         # whole-ballot (random) transfer: tallies depend on the sample, so the rounds are judged on
         # their recorded tallies (who may be elected / eliminated), not against predicted ones
-        prof = draw(S.ranked_profile(1, 6, 8, tied=False, weights="int", tie_rich=draw(st.booleans())))
+        prof = draw(S.ranked_profile(1, max_c, max_b, tied=False, weights="int", tie_rich=draw(st.booleans())))
     return {
         "cands": prof["cands"], "ballots": prof["ballots"], "rule": rule,
         "m": 1 if rule == "IRV" else draw(st.integers(1, n)),
@@ -52,7 +52,8 @@ def case(draw):
 
 
 def strategy(tier):
-    return case()
+    # thorough: deeper bounds (up to 8 candidates, 12 ballots)
+    return case() if tier == "quick" else st.one_of(case(), case(8, 12))
 
 
 def exhaustive(tier):
